@@ -456,6 +456,87 @@ Proof.
 Qed.
 
 (* ------------------------------------------------------------------------------------------ *)
+(* categorical chunks, REPAIRED rule (bounds over the label values present): the statistics describe   *)
+(* the chunk as stored - dictionary page = categories, data pages = codes - for every category order,   *)
+(* every set of unused categories, every page split                                                     *)
+(* ------------------------------------------------------------------------------------------ *)
+Section Cat.
+  Variable A : Type.
+  Variable leb : A -> A -> bool.
+  Variable ordered : A -> bool.
+  Hypothesis leb_refl : forall a, leb a a = true.
+  Hypothesis leb_trans : forall a b c, leb a b = true -> leb b c = true -> leb a c = true.
+  Hypothesis leb_total : forall a b, leb a b = true \/ leb b a = true.
+
+  Lemma present_In codes i : In i (present codes) <-> In (Some i) codes.
+  Proof.
+    induction codes as [|[j|] r IH]; cbn.
+    - tauto.
+    - rewrite IH. split; intros [H|H]; auto; left; congruence.
+    - rewrite IH. split; [auto|]. intros [H|H]; [discriminate|exact H].
+  Qed.
+
+  (* the labels that occur in the decoded chunk are the labels the repaired writer looks at *)
+  Lemma labels_present_In cats codes x :
+    In (Some x) (labels_of A cats codes) <-> In (Some x) (cat_labels_present A cats codes).
+  Proof.
+    unfold labels_of, cat_labels_present. rewrite !in_map_iff. split.
+    - intros (c & Hc & Hin). destruct c as [i|]; [|discriminate].
+      exists i. split; [exact Hc|]. apply nodup_In. now apply present_In.
+    - intros (i & Hi & Hin). apply nodup_In in Hin. apply present_In in Hin.
+      exists (Some i). split; [exact Hi|exact Hin].
+  Qed.
+
+  Lemma exact_transfer (l l' : cells A) (st st' : stats A) :
+    (forall x, In (Some x) l <-> In (Some x) l') ->
+    s_min st = s_min st' -> s_max st = s_max st' -> s_nulls st = count_nulls A l ->
+    exact A leb ordered l' st' -> exact A leb ordered l st.
+  Proof.
+    intros Hm Emin Emax Hn (_ & Hmin & Hmax & Hnone).
+    assert (M : forall x, member A ordered l x <-> member A ordered l' x).
+    { intros x. unfold member. rewrite Hm. tauto. }
+    unfold exact. split; [exact Hn|]. split; [|split].
+    - intros mn E. rewrite Emin in E. destruct (Hmin mn E) as ((x & Hx & Hq) & Hl). split.
+      + exists x. split; [now apply M|exact Hq].
+      + intros y Hy. apply Hl. now apply M.
+    - intros mx E. rewrite Emax in E. destruct (Hmax mx E) as ((x & Hx & Hq) & Hu). split.
+      + exists x. split; [now apply M|exact Hq].
+      + intros y Hy. apply Hu. now apply M.
+    - intros Hno. rewrite Emin, Emax. apply Hnone. intros x Hx. apply (Hno x). now apply M.
+  Qed.
+
+  Lemma labels_of_concat cats (pages : list (list (option nat))) :
+    concat (map (labels_of A cats) pages) = labels_of A cats (concat pages).
+  Proof. unfold labels_of. symmetry. apply concat_map. Qed.
+
+  (* C04 for categorical chunks, repaired rule: whatever the category order, whichever categories are
+     unused, however the codes are cut into pages, the statistics are exact for the decoded chunk *)
+  Theorem cat_stats_of_exact : forall (sel optional : bool) (cats : list A) (pages : list (list (option nat))),
+    (optional = false -> forall c, In c (labels_of A cats (concat pages)) -> c <> None) ->
+    exact A leb ordered (labels_of A cats (concat pages)) (cat_stats_of A leb ordered sel optional cats pages).
+  Proof.
+    intros sel optional cats pages Hreq.
+    set (L' := cat_labels_present A cats (concat pages)).
+    pose proof (stats_of_exact A leb ordered leb_refl leb_trans leb_total sel true [L']) as Hex.
+    cbn [concat] in Hex. rewrite app_nil_r in Hex. specialize (Hex (fun H => False_ind _ (diff_true_false H))).
+    apply (exact_transfer _ L' _ (stats_of A leb ordered sel true [L'])).
+    - intros x. apply labels_present_In.
+    - unfold cat_stats_of, stats_of. cbn [concat]. rewrite app_nil_r. fold L'.
+      destruct sel; [|reflexivity].
+      destruct (max_of A leb (ordvals A ordered L')); destruct (min_of A leb (ordvals A ordered L')); reflexivity.
+    - unfold cat_stats_of, stats_of. cbn [concat]. rewrite app_nil_r. fold L'.
+      destruct sel; [|reflexivity].
+      destruct (max_of A leb (ordvals A ordered L')); destruct (min_of A leb (ordvals A ordered L')); reflexivity.
+    - assert (Ht : tally A optional (map (labels_of A cats) pages) = count_nulls A (labels_of A cats (concat pages))).
+      { rewrite <- labels_of_concat. apply tally_exact. rewrite labels_of_concat. exact Hreq. }
+      unfold cat_stats_of. destruct sel; [|exact Ht].
+      destruct (max_of A leb (ordvals A ordered (cat_labels_present A cats (concat pages))));
+        destruct (min_of A leb (ordvals A ordered (cat_labels_present A cats (concat pages)))); exact Ht.
+    - exact Hex.
+  Qed.
+End Cat.
+
+(* ------------------------------------------------------------------------------------------ *)
 (* instances for the Parquet orderings (statements used in props/C04.v)                        *)
 (* ------------------------------------------------------------------------------------------ *)
 Definition minmax_exact_statement (A : Type) (leb : A -> A -> bool) (ordered : A -> bool) : Prop :=
@@ -505,3 +586,17 @@ Lemma sorted_sound_bytes : forall (gs : list (rg bytes)),
   sorted_col bytes lex_leb (map (fun g => Some (rg_min bytes g)) gs) (map (fun g => Some (rg_max bytes g)) gs) = true ->
   strictly_increasing bytes lex_leb gs.
 Proof. exact (sorted_col_sound bytes lex_leb lex_leb_refl lex_leb_trans). Qed.
+
+Lemma cat_exact_fixed : forall o sel optional (cats : list N) (pages : list (list (option nat))),
+  (optional = false -> forall c, In c (labels_of N cats (concat pages)) -> c <> None) ->
+  exact N (leb_of o) (ordered_of o) (labels_of N cats (concat pages))
+        (cat_stats_of N (leb_of o) (ordered_of o) sel optional cats pages).
+Proof.
+  intros o. exact (cat_stats_of_exact N (leb_of o) (ordered_of o) (leb_of_refl o) (leb_of_trans o) (leb_of_total o)).
+Qed.
+
+Lemma cat_exact_bytes : forall sel optional (cats : list bytes) (pages : list (list (option nat))),
+  (optional = false -> forall c, In c (labels_of bytes cats (concat pages)) -> c <> None) ->
+  exact bytes lex_leb (fun _ => true) (labels_of bytes cats (concat pages))
+        (cat_stats_of bytes lex_leb (fun _ => true) sel optional cats pages).
+Proof. exact (cat_stats_of_exact bytes lex_leb (fun _ => true) lex_leb_refl lex_leb_trans lex_leb_total). Qed.
